@@ -306,7 +306,28 @@ func (x *Exec) invCtx(fr *Frame, lr *loopRec, st *State) *SpecCtx {
 			vars["old_"+k] = v
 		}
 	}
-	return &SpecCtx{x: x, st: st, old: x.entry, vars: vars, fr: fr, loopPos: lr.pos, pkg: pkgOf(fr.fn), loopHead: lr.head}
+	sc := &SpecCtx{x: x, st: st, old: x.entry, vars: vars, fr: fr, loopPos: lr.pos, pkg: pkgOf(fr.fn), loopHead: lr.head}
+	// captured variables of a closure: current value, and entry value inside old()
+	for _, fv := range fr.fn.FreeVars {
+		bv, ok := fr.env[fv]
+		if !ok || bv.DP == nil || bv.DP.Cell == nil {
+			continue
+		}
+		cur, ok := st.cells[*bv.DP.Cell]
+		if !ok || cur.Clo != nil || cur.Fn != nil || cur.DP != nil || cur.S == "!unmergeable" {
+			continue
+		}
+		vars[fv.Name()] = cur
+		if fr.fn == x.root {
+			if entry, ok := x.rootArgs[fv.Name()]; ok {
+				if sc.oldVars == nil {
+					sc.oldVars = map[string]Val{}
+				}
+				sc.oldVars[fv.Name()] = entry
+			}
+		}
+	}
+	return sc
 }
 
 func pkgOf(fn *ssa.Function) *types.Package {
